@@ -1208,7 +1208,10 @@ func (k *Kernel) checkVotingPrecommitViewShift(ctx context.Context, s *kState) e
 
 // saveCurrentCommittingHeader saves s.CommittingHeader to the header store.
 func (k *Kernel) saveCurrentCommittingHeader(ctx context.Context, s *kState) error {
-	proof := s.Voting.PrevCommitProof
+	// The store gets its own copy: the voting view's map is cleared and reused
+	// when the view is recycled after a round change,
+	// which emptied the proof of a header that a store kept by reference.
+	proof := s.Voting.PrevCommitProof.Clone()
 
 	// TODO: gassert: confirm the voting proof is sufficient.
 
